@@ -62,7 +62,7 @@ var c07IdentMuts = map[string]bool{
 	"idv-ref-mismatch": true, "idv-empty-name": true, "idv-ctrl-char": true, "idv-tree-as-version": true, "idv-ref-to-blob": true,
 	"idv-fuzz":     false,
 	"idv-null-key": true, "idv-bad-key": true, "idv-times-string": true, "idv-no-nonce": true,
-	"idv-other-root": true, "idv-clock-decreases": true,
+	"idv-other-root": true, "idv-clock-decreases": true, "idv-two-parents": true,
 }
 
 func (c07Driver) Gen(r *Rand, tier string) []json.RawMessage {
@@ -593,6 +593,13 @@ func (c07Driver) Run(raw json.RawMessage) Case {
 			_ = repoB.LocalConfig().StoreString("user.name", "testuser")
 			_ = repoB.LocalConfig().StoreString("user.email", "testuser@example.com")
 			tip, direct = store(es, root), true
+		case "idv-two-parents":
+			// a version commit with two parents: the chain of versions of an identity is linear
+			if in.Sit == "absent" {
+				return Case{Skip: "needs a known previous version"}
+			}
+			vh, _ := repoB.ResolveRef("refs/identities/" + string(victim.Id()))
+			tip, direct = store(es, base, vh), true
 		case "idv-clock-decreases":
 			// a version whose lamport time for a clock is lower than in the previous version
 			if in.Sit == "absent" {
